@@ -212,6 +212,15 @@ class C15(PropBase):
         c = base.make_case(rng, {})
         if rng.chance(1, 3):
             c.arch, c.trunc, c.bits32 = 9, False, False
+        # 32-bit platforms with values of 2^32 and more in Address members: a module that ends exactly at 0x1_0000_0000 (end_addr needs
+        # 9 digits), a module / unloaded module record with a 64-bit base
+        if c.arch in c14mod.ARCH_W32 and c.mods and rng.chance(1, 4):
+            i = rng.below(len(c.mods))
+            s = c.mods[i][1] if 0 < c.mods[i][1] <= 0x10000000 else 0x10000
+            nb = rng.choice([(1 << 32) - s, (1 << 32) - s, (1 << 32), 0x1234_5678_9abc_0000])
+            if all(j == i or b + sz <= nb or nb + s <= b for j, (b, sz) in enumerate(c.mods)):
+                c.mods[i] = (nb, s)
+                dist["module_at_or_above_2^32_on_32bit"] = dist.get("module_at_or_above_2^32_on_32bit", 0) + 1
         good = [i for i, (b, s) in enumerate(c.mods) if s != 0 and b + s <= U64 and s >= 0x1000]
         symmods = [i for i in good if rng.chance(1, 2)]
         # place frames inside symbolised modules
